@@ -27,7 +27,7 @@ def declare(rep):
     rep.rule("C12.area-normal", "update_face_normal_and_area: area = |(x2-x1)x(x3-x1)|/2, normal = normalised cross product", floor=2)
     rep.rule("C12.centroid", "compute_centroid: sum over used faces of (x1+x2+x3)/3*area, divided by area_", floor=2)
     rep.rule("C12.flood-fill-complete", "the winding flood fill of check_face_normal_orientation queues, for the seed face and for every face it visits, the neighbours across all three edges of that face - (n1,n2), (n2,n3), (n3,n1): a neighbour that is never queued from a face can stay unreached, so a wrongly wound input triangle is left as it is", floor=2)
-    rep.rule("C12.eigen-similarity", "every Givens step of gte::SymmetricEigensolver3x3::operator() is a similarity transform of the tridiagonal matrix (b00 b01 b11 b12 b22), and every final reflection of the 2x2 block it diagonalises: with c, s the half-angle pair of GetCosSin(u, v) - c^2+s^2 = 1 and 2cs u = (c^2-s^2) v - the straight-line update preserves trace, tr(B^2) and det, i.e. the characteristic polynomial, as a polynomial identity modulo those two relations. A step that is not a similarity makes the iteration converge to numbers that are not the eigenvalues of the covariance matrix, and the long axis is then wrong for every cell", floor=4)
+    rep.rule("C12.eigen-similarity", "every Givens step of gte::SymmetricEigensolver3x3::operator() is a similarity transform of the tridiagonal matrix (b00 b01 b11 b12 b22), and every final reflection of the 2x2 block it diagonalises: with c, s the half-angle pair of GetCosSin(u, v) - c^2+s^2 = 1 and 2cs u = (c^2-s^2) v - the straight-line update preserves trace, tr(B^2) and det, i.e. the characteristic polynomial, as a polynomial identity modulo those two relations. A step that is not a similarity makes the iteration converge to numbers that are not the eigenvalues of the covariance matrix, and the long axis is then wrong for every cell", floor=5)
     rep.rule("C12.area-sum", "compute_area: sum of get_area() over used faces only", floor=1)
     rep.rule("C12.aabb", "get_aabb: running min/max per axis over used nodes from +/-infinity, returned as (min xyz, max xyz)", floor=7)
     rep.rule("C12.eigen-layout", "the axis returned for eigenvalue k is (evec[k][0], evec[k][1], evec[k][2]): index bookkeeping through the mat33 constructor, transpose and get_col agrees between eigen_decomposition and get_cell_longest_axis", floor=3)
@@ -507,6 +507,50 @@ def eigen_similarity(rep, prog):
         else:
             rep.violation("C12.eigen-similarity", prog, fn, stmts[gcs[0]], "Givens step is not a similarity transform" if final_of is None else "final reflection is not a similarity transform",
                           "the update of (%s) in the loop at line %s of SymmetricEigensolver3x3::operator() does not preserve %s of the tridiagonal matrix (checked as a polynomial identity modulo c^2+s^2=1 and the half-angle relation of GetCosSin): the step is not B <- G^T B G, so the iteration changes the eigenvalues it is converging to - the eigenvalues and eigenvectors returned to get_cell_longest_axis are not those of the covariance matrix and the long axis (hence the division plane) is wrong for every cell that takes this branch" % (", ".join(names[d] for d in tri), loop.get("l"), " and ".join(bad)))
+    # the Householder prologue: B = H A H with (c, s) the unit vector parallel to (u, v) handed to GetCosSin - the tridiagonal B has
+    # the characteristic polynomial of the full symmetric A
+    top = fn["body"].get("c", [])
+    pg = [i for i, st_ in enumerate(top) if is_call(strip(st_)) and strip(st_).get("callee", "").endswith("::GetCosSin")]
+    params = [p_ for p_ in fn.get("params", []) if isinstance(p_, dict) and (p_.get("t") or "").replace("const ", "").strip() in ("double", "float", "Real")]
+    if pg and len(params) >= 6:
+        try:
+            env = {p_["did"]: sp.Symbol(p_.get("name") or ("a%d" % i)) for i, p_ in enumerate(params[:6])}
+            g = strip(top[pg[0]])
+            ga = call_args(g)
+            u, v = _lin_eval(ga[0], env, consts), _lin_eval(ga[1], env, consts)
+            c, s_ = sp.Symbol("c"), sp.Symbol("s")
+            env[strip(ga[2])["ref"]["did"]], env[strip(ga[3])["ref"]["did"]] = c, s_
+            last = pg[0]
+            for i in range(pg[0] + 1, len(top)):
+                st_ = strip(top[i])
+                if st_.get("k") == "DeclStmt":
+                    for d_ in st_.get("decls", []):
+                        if isinstance(d_, dict) and d_.get("k") == "Var" and isinstance(d_.get("init"), dict) and (d_.get("t") or "").replace("const ", "").replace(" const", "").strip() in ("double", "float", "Real"):
+                            env[d_["did"]] = _lin_eval(d_["init"], env, consts)
+                    last = i
+                    continue
+                if st_.get("k") == "BinaryOperator" and st_.get("op") == "=" and strip(st_["c"][0]).get("k") == "DeclRefExpr":
+                    env[strip(st_["c"][0])["ref"]["did"]] = _lin_eval(st_["c"][1], env, consts)
+                    last = i
+                    continue
+                if all(d in env for d in tri):
+                    break
+                raise _NoForm("statement at line %s" % st_.get("l"))
+            if not all(d in env for d in tri):
+                raise _NoForm("the entries of the tridiagonal matrix are not all initialised before the iterations")
+            a00, a01, a02, a11, a12, a22 = [env[p_["did"]] for p_ in params[:6]]
+            full = [("the trace", a00 + a11 + a22), ("tr(A^2)", a00 ** 2 + a11 ** 2 + a22 ** 2 + 2 * (a01 ** 2 + a02 ** 2 + a12 ** 2)),
+                    ("the determinant", sp.Matrix([[a00, a01, a02], [a01, a11, a12], [a02, a12, a22]]).det())]
+            G = sp.groebner([c ** 2 + s_ ** 2 - 1, sp.expand(c * v - s_ * u)], c, s_, a00, a01, a02, a11, a12, a22, order="grevlex")
+            bad = [w for (w, before), (_w, after) in zip(full, invariants([env[d] for d in tri])) if G.reduce(sp.expand(before - after))[1] != 0]
+            n += 1
+            if not bad:
+                rep.ok("C12.eigen-similarity", prog, fn, top[pg[0]], "the Householder prologue (lines %s-%s) gives a tridiagonal matrix with the trace, tr(A^2) and det of the input matrix modulo c^2+s^2=1 and c*v=s*u" % (top[pg[0]].get("l"), top[last].get("l")))
+            else:
+                rep.violation("C12.eigen-similarity", prog, fn, top[pg[0]], "Householder prologue is not a similarity transform",
+                              "the tridiagonal matrix (%s) that SymmetricEigensolver3x3::operator() builds from its input (lines %s-%s) does not have %s of the input matrix (polynomial identity modulo c^2+s^2=1 and (c,s) parallel to the GetCosSin arguments): it is not H*A*H, so the eigenvalues the iteration converges to are not those of the covariance matrix and the long axis is wrong for every cell" % (", ".join(names[d] for d in tri), top[pg[0]].get("l"), top[last].get("l"), " and ".join(bad)))
+        except _NoForm as ex:
+            raise AnalysisBroken("SymmetricEigensolver3x3::operator(): the Householder prologue is not in a form this checker evaluates (%s)" % ex)
     if n == 0:
         raise AnalysisBroken("SymmetricEigensolver3x3::operator(): no Givens iteration (loop with GetCosSin) found")
 
